@@ -152,7 +152,8 @@ func main() {
 		only      = flag.String("only", "", "run only harnesses whose name contains this")
 		workers   = flag.Int("workers", 0, "workers per harness (0 = auto)")
 		solver    = flag.String("solver", "z3", "z3 | z3-new | cvc5")
-		timeoutMs = flag.Int("timeout", 20000, "solver timeout per query (ms)")
+		timeoutMs = flag.Int("timeout", 3000, "incremental solver time slice per query (ms)")
+		oneShotMs = flag.Int("oneshot", 60000, "time limit of the from-scratch fallback query (ms)")
 		verbose   = flag.Bool("v", false, "verbose")
 		noReplay  = flag.Bool("noreplay", false, "skip native replay (violations are then reported UNCONFIRMED)")
 		budgetS   = flag.Int("budget", 0, "time budget per harness in seconds (0: tier default)")
@@ -209,6 +210,7 @@ func main() {
 	}
 	eng.solverName = *solver
 	eng.timeoutMs = *timeoutMs
+	eng.oneShotMs = *oneShotMs
 	eng.seed = seed
 	eng.verbose = *verbose
 	eng.tier = *tier
@@ -365,7 +367,10 @@ func report(eng *Engine, prop, tier string, seed int, specs []*HarnessSpec, resu
 			}
 		}
 		hc := true
-		if len(h.Unsupported) > 0 || h.Truncated || h.UnwindFail > 0 || h.Solver.Unknown > 0 || h.Solver.Errors > 0 || h.AssertsUnk > 0 {
+		// An undecided *feasibility* query keeps both branches (a superset of the
+		// real paths is explored), which cannot hide a violation; only undecided
+		// assertions, solver errors and cut explorations make a run incomplete.
+		if len(h.Unsupported) > 0 || h.Truncated || h.UnwindFail > 0 || h.Solver.Errors > 0 || h.AssertsUnk > 0 {
 			hc = false
 		}
 		// covers: every declared cover label must have been reached on some completed path
